@@ -135,7 +135,8 @@ Record dstate := {
   d_oracle : list (bytes * bytes * option bytes);
   d_chain : chain;
   d_pending : chain;          (* state lines of the implementation accumulated since the last SYNC *)
-  d_gen : genesis }.          (* genesis lines accumulated since G-BEGIN *)
+  d_gen : genesis;            (* genesis lines accumulated since G-BEGIN *)
+  d_sim : option chain }.     (* the dropped branch that consecutive chained SIM steps share, while all of them succeeded *)
 
 Definition empty_chain : chain := {| c_st := empty_store; c_lg := [] |}.
 Definition empty_genesis : genesis :=
@@ -144,7 +145,7 @@ Definition empty_genesis : genesis :=
      g_max_body := None; g_next_nonce := None; g_threshold := None; g_pairs := []; g_nonces := []; g_messengers := [] |}.
 Definition init_dstate : dstate :=
   {| d_hrp := B "cosmos"; d_denom := B "uusdc"; d_module := []; d_oracle := [];
-     d_chain := empty_chain; d_pending := empty_chain; d_gen := empty_genesis |}.
+     d_chain := empty_chain; d_pending := empty_chain; d_gen := empty_genesis; d_sim := None |}.
 
 Definition oracle_lookup (tbl : list (bytes * bytes * option bytes)) (d s : bytes) : option bytes :=
   match List.find (fun x => beqb (fst (fst x)) d && beqb (snd (fst x)) s) tbl with
@@ -157,13 +158,16 @@ Definition env_of (d : dstate) : env :=
 
 Definition set_chain (c : chain) (d : dstate) : dstate :=
   {| d_hrp := d_hrp d; d_denom := d_denom d; d_module := d_module d; d_oracle := d_oracle d;
-     d_chain := c; d_pending := d_pending d; d_gen := d_gen d |}.
+     d_chain := c; d_pending := d_pending d; d_gen := d_gen d; d_sim := d_sim d |}.
 Definition set_pending (c : chain) (d : dstate) : dstate :=
   {| d_hrp := d_hrp d; d_denom := d_denom d; d_module := d_module d; d_oracle := d_oracle d;
-     d_chain := d_chain d; d_pending := c; d_gen := d_gen d |}.
+     d_chain := d_chain d; d_pending := c; d_gen := d_gen d; d_sim := d_sim d |}.
+Definition set_sim (o : option chain) (d : dstate) : dstate :=
+  {| d_hrp := d_hrp d; d_denom := d_denom d; d_module := d_module d; d_oracle := d_oracle d;
+     d_chain := d_chain d; d_pending := d_pending d; d_gen := d_gen d; d_sim := o |}.
 Definition set_gen (g : genesis) (d : dstate) : dstate :=
   {| d_hrp := d_hrp d; d_denom := d_denom d; d_module := d_module d; d_oracle := d_oracle d;
-     d_chain := d_chain d; d_pending := d_pending d; d_gen := g |}.
+     d_chain := d_chain d; d_pending := d_pending d; d_gen := g; d_sim := d_sim d |}.
 
 (* ---------- parsing of the pieces ---------- *)
 Fixpoint parse_plan (s : bytes) : list directive :=
@@ -403,13 +407,13 @@ Definition run_line (d : dstate) (line : bytes) : dstate * list bytes :=
     else if beqb cmd (B "SYNC") then (set_pending empty_chain (set_chain (d_pending d) d), [])
     else if beqb cmd (B "BEGIN") then
       ({| d_hrp := d_hrp d; d_denom := d_denom d; d_module := d_module d; d_oracle := [];
-          d_chain := empty_chain; d_pending := empty_chain; d_gen := empty_genesis |}, [])
+          d_chain := empty_chain; d_pending := empty_chain; d_gen := empty_genesis; d_sim := None |}, [])
     else if beqb cmd (B "ENV") then
       let a := kvs rest in
       match get_hex "hrp" a, get_hex "denom" a, get_hex "module" a with
       | Some h, Some dn, Some m =>
           ({| d_hrp := h; d_denom := dn; d_module := m; d_oracle := d_oracle d;
-              d_chain := d_chain d; d_pending := d_pending d; d_gen := d_gen d |}, [])
+              d_chain := d_chain d; d_pending := d_pending d; d_gen := d_gen d; d_sim := d_sim d |}, [])
       | _, _, _ => (d, bad (B "ENV"))
       end
     else if beqb cmd (B "ORACLE") then
@@ -418,7 +422,7 @@ Definition run_line (d : dstate) (line : bytes) : dstate * list bytes :=
       | Some dg, Some sg, Some pk =>
           let pk' := match pk with [x2d] => None | _ => hex_decode_strict pk end in
           ({| d_hrp := d_hrp d; d_denom := d_denom d; d_module := d_module d; d_oracle := (dg, sg, pk') :: d_oracle d;
-              d_chain := d_chain d; d_pending := d_pending d; d_gen := d_gen d |}, [])
+              d_chain := d_chain d; d_pending := d_pending d; d_gen := d_gen d; d_sim := d_sim d |}, [])
       | _, _, _ => (d, bad (B "ORACLE"))
       end
     else if beqb cmd (B "TX") then
@@ -438,7 +442,7 @@ Definition run_line (d : dstate) (line : bytes) : dstate * list bytes :=
                          | OPanic => B "panic"
                          | OUnmodelled => B "unmodelled"
                          end in
-              (set_chain (r_chain r) d,
+              (set_sim None (set_chain (r_chain r) d),
                [B "R " ++ n ++ sp ++ out]
                ++ indexed "E" n 0 (map print_event (r_events r))
                ++ indexed "D" n 0 (map print_depcall (r_calls r))
@@ -454,7 +458,9 @@ Definition run_line (d : dstate) (line : bytes) : dstate * list bytes :=
       | _ => (d, bad (B "TX"))
       end
     else if beqb cmd (B "SIM") then
-      (* the message runs on a branch that is dropped whatever the outcome: only the outcome is observable *)
+      (* the message runs on a branch that is dropped whatever the outcome: only the outcome is observable.  A step marked
+         chain=1 runs on the branch of the preceding SIM step if that one succeeded (the messages of one transaction, or of
+         one simulation, share a branch and stop at the first failure); otherwise the branch starts from the chain. *)
       match rest with
       | n :: ty :: args =>
           let a := kvs args in
@@ -462,7 +468,10 @@ Definition run_line (d : dstate) (line : bytes) : dstate * list bytes :=
           | None => (d, bad n)
           | Some t =>
               let plan := match find (B "plan") a with Some p => parse_plan p | None => [] end in
-              let out := match simulate (env_of d) (d_chain d) plan t with
+              let chained := match find (B "chain") a with Some v => beqb v (B "1") | None => false end in
+              let base := match d_sim d with Some sc => if chained then sc else d_chain d | None => d_chain d end in
+              let r := deliver (env_of d) base plan t in
+              let out := match r_out r with
                          | OOk RNone => B "ok"
                          | OOk (RNonce k) => B "ok" ++ kv_N "nonce" k
                          | OOk RSuccess => B "ok success=1"
@@ -470,7 +479,8 @@ Definition run_line (d : dstate) (line : bytes) : dstate * list bytes :=
                          | OPanic => B "panic"
                          | OUnmodelled => B "unmodelled"
                          end in
-              (d, [B "R " ++ n ++ sp ++ out] ++ numbered "S" n (print_state (c_st (d_chain d)) (c_lg (d_chain d))))
+              (set_sim (match r_out r with OOk _ => Some (r_chain r) | _ => None end) d,
+               [B "R " ++ n ++ sp ++ out] ++ numbered "S" n (print_state (c_st (d_chain d)) (c_lg (d_chain d))))
           end
       | _ => (d, bad (B "SIM"))
       end
